@@ -253,7 +253,10 @@ impl SimCard {
             monitor_on: true,
             bytes_total: 0,
             bytes_this_call: 0,
-            byte_budget: 2_000_000_000,
+            // every wait loop of the driver is bounded by 10,000 / 50,000 polls and the
+            // identification retries by `acquire_retries`; the generated card families need
+            // at most ~1e6 bytes per call, so this leaves a 20x margin
+            byte_budget: 20_000_000,
             transactions: 0,
             delays: 0,
             reads_sent: 0,
